@@ -1136,3 +1136,21 @@ def _m87():
     # results. If not, we can avoid regenerating.
     regenerate = _forced
 """)
+
+
+@mutant('patchelf_changed_assigned')
+def _m88():
+    # patchelf.post_install: `changed` is assigned, not only set, by an rpath_dir option
+    from bfg9000.tools import patchelf as pe
+    _patch_source(pe, 'post_install', """            if i.when != opts.RpathWhen.always:
+                changed = True""", """            changed = i.when != opts.RpathWhen.always
+""")
+
+
+@mutant('uninstall_dir_flattened')
+def _m89():
+    # install._uninstall_files: a directory's files are taken from the (flattened) installed clone
+    from bfg9000.builtins import install as bi
+    _patch_source(bi, '_uninstall_files', """            return [dst.path.append(i.path.relpath(src.path)) for i in
+                    iterate(src.files)]""", """            return [i.path for i in iterate(dst.files)]
+""")
